@@ -498,7 +498,7 @@ func runWith(t *testing.T, p *Plan, out *simcheck.Outcome, dir, other string, ke
 					h.ServeHTTP(w, req)
 					got := rec.Body.Bytes()
 					if sw.cut {
-						out.Violate("truncated-response", "%s: the server stopped writing %v after the request arrived (write limit %v): %d bytes of the response were delivered", tag, simtime.Now().Sub(sw.start), writeLimit, len(got))
+						out.Violate("truncated-response", "%s: the server stopped writing %v after the request arrived (write limit %v): %d bytes of the response were delivered", tag, sw.elapsed, writeLimit, len(got))
 						return
 					}
 					if exp.code < 0 {
@@ -590,21 +590,24 @@ func runWith(t *testing.T, p *Plan, out *simcheck.Outcome, dir, other string, ke
 	return out
 }
 
-// slowWriter is the response path to a slow client: simulated time passes at
-// every write, and once more than the server's write limit has passed since the
+// slowWriter is the response path to a slow client: the first write of the response
+// takes the client's stall (simulated seconds, counted per request, not on a clock shared
+// with other requests), and once more than the server's write limit has passed since the
 // request arrived the connection is dead, as with http.Server.WriteTimeout.
 type slowWriter struct {
 	http.ResponseWriter
-	stall, limit time.Duration
-	start        time.Time
-	cut          bool
+	stall, limit, elapsed time.Duration
+	start                 time.Time
+	stalled, cut          bool
 }
 
 func (w *slowWriter) Write(b []byte) (int, error) {
-	if w.stall > 0 {
+	if w.stall > 0 && !w.stalled {
+		w.stalled = true
+		w.elapsed += w.stall
 		simtime.Advance(w.stall)
 	}
-	if w.cut || w.limit > 0 && simtime.Now().Sub(w.start) > w.limit {
+	if w.cut || w.limit > 0 && w.elapsed > w.limit {
 		w.cut = true
 		return 0, os.ErrDeadlineExceeded
 	}
